@@ -454,9 +454,16 @@ class simplify_chained_calls(FuncADLNodeTransformer):
         """
         if type(call_node.func) is ast.Lambda:
             arg_asts = [self.visit(a) for a in call_node.args]
+            # Give the parameters names that occur nowhere else: an argument may mention a name
+            # equal to a parameter's, and parts of the body are visited more than once.
+            old_names = [a.arg for a in call_node.func.args.args]
+            func = make_args_unique(call_node.func)
+            new_names = {old: a.arg for old, a in zip(old_names, func.args.args)}
             # Arguments given by keyword, then declared defaults, bind the remaining parameters
-            l_args = call_node.func.args
-            kw_asts = {k.arg: self.visit(k.value) for k in call_node.keywords}
+            l_args = func.args
+            kw_asts = {
+                new_names.get(k.arg, k.arg): self.visit(k.value) for k in call_node.keywords
+            }
             n_no_default = len(l_args.args) - len(l_args.defaults)
             default_asts = [self.visit(d) for d in l_args.defaults]
             with stack_frame(self._arg_stack):
@@ -470,7 +477,7 @@ class simplify_chained_calls(FuncADLNodeTransformer):
                     elif i_arg >= n_no_default:
                         self._arg_stack.define_name(a_name.arg, default_asts[i_arg - n_no_default])
                 # Now, evaluate the expression, and then lift it.
-                return self.visit(call_node.func.body)
+                return self.visit(func.body)
         elif _is_method_call_on_first(call_node):
             return self.select_method_call_on_first(call_node)
         else:
